@@ -7,6 +7,8 @@ d/dT_upper = Cp.
 """
 import math
 
+import numpy
+
 from .. import core, universe as U
 
 ID = "C13"
@@ -47,6 +49,34 @@ def judge_vp(case):
     if not abs(float(h) - ref) <= core.FD * abs(ref) + 1e-12:
         v.append(core.viol("C13/clausius_clapeyron/" + c.type, "heat of vaporisation %r kJ/mol at %r K, R T^2 dlnPsat/dT = %r" % (float(h), t, ref),
                            constants=[c.a, c.b, c.c]))
+    # the same temperature stated as an integer (python int, numpy integer): same physics, same number
+    ti = int(round(t))
+    if not (c.type == "antoine" and abs(ti + c.c) < 30):
+        for mk in (int, numpy.int64, numpy.int32):
+            for name, fn in (("heat", comp.get_vaporisation_heat), ("pressure", comp.get_vapor_pressure)):
+                s1, a1 = core.call(fn, mk(ti))
+                s2, a2 = core.call(fn, float(ti))
+                if s2 != "ok":
+                    continue
+                if s1 != "ok" or not abs(float(a1) - float(a2)) <= core.ULP * abs(float(a2)):
+                    v.append(core.viol("C13/integer_temperature/" + name + "/" + c.type, "%s at %s(%d) = %r but at %r it is %r" % (name, mk.__name__, ti, a1, float(ti), a2),
+                                       constants=[c.a, c.b, c.c]))
+    # history: the caller edits the constants in place (or replaces them) after a query - 'for every constant set' includes the edited one
+    if not isinstance(case["component"], str):
+        comp.get_vapor_pressure(t)
+        for how in ("in_place", "replaced"):
+            a_, b_, c_, ty = case["component"]
+            b2 = b_ * (1.07 if how == "in_place" else 0.93)
+            if how == "in_place":
+                comp.vapour_pressure_constants.b = b2
+            else:
+                comp.vapour_pressure_constants = U.VaporPressureConstants(a=a_, b=b2, c=c_, type=ty)
+            fresh = vp_component((a_, b2, c_, ty))
+            for name in ("get_vaporisation_heat", "get_vapor_pressure"):
+                r1, r2 = core.call(getattr(comp, name), t), core.call(getattr(fresh, name), t)
+                if r1[0] != r2[0] or (r1[0] == "ok" and core.fhex(r1[1]) != core.fhex(r2[1])):
+                    v.append(core.viol("C13/stale_after_constants_edited/" + name, "after the constants were %s (b %r -> %r) %s(%r) = %r, a fresh component with those constants gives %r"
+                                       % (how, b_, b2, name, t, r1[1], r2[1]), constants=[a_, b2, c_]))
     return core.result("judged", digest=core.digest_of([core.fhex(h)]), viol=v, sample={"H": float(h), "ref": ref})
 
 
@@ -93,8 +123,35 @@ def judge_cp(case):
         if not abs(der - cp) <= core.FD * cps + 1e-9:
             v.append(core.viol("C13/cooling_derivative", "d h/dT_upper at %r = %r but Cp = %r" % (t, der, cp)))
             break
-    return core.result("judged", digest=core.digest_of([core.fhex(h(t0, t1)), core.fhex(h(t1, t2))]), viol=v,
-                       sample={"h01": h(t0, t1)})
+    dig = core.digest_of([core.fhex(h(t0, t1)), core.fhex(h(t1, t2))])
+    h01 = h(t0, t1)
+    # integer-typed temperatures
+    i0, i1 = int(round(t0)), int(round(t1))
+    for mk in (int, numpy.int64):
+        s1, a1 = core.call(comp.get_cooling_heat, mk(i0), mk(i1))
+        a2 = h(float(i0), float(i1))
+        if s1 != "ok" or not abs(float(a1) - a2) <= core.ULP * scale(i0, i1):
+            v.append(core.viol("C13/integer_temperature/cooling", "cooling heat between %s %d and %d = %r, between the same floats %r" % (mk.__name__, i0, i1, a1, a2)))
+        s1, a1 = core.call(comp.get_specific_heat, mk(i0))
+        a2 = float(comp.get_specific_heat(float(i0)))
+        if s1 != "ok" or not abs(float(a1) - a2) <= core.ULP * (abs(hc.a) + abs(hc.b * i0) + abs(hc.c * i0 * i0) + abs(hc.d * i0 ** 3)):
+            v.append(core.viol("C13/integer_temperature/specific_heat", "specific heat at %s %d = %r, at the same float %r" % (mk.__name__, i0, a1, a2)))
+    # history: constants edited in place / replaced after queries
+    if not isinstance(case["cp"], str):
+        co = list(case["cp"])
+        for how, idx, val in (("in_place", 2, 3.3e-5), ("in_place", 3, -1.7e-8), ("replaced", 1, 0.27), ("in_place", 0, 55.5)):
+            co[idx] = val
+            if how == "in_place":
+                setattr(comp.heat_capacity_constants, "abcd"[idx], val)
+            else:
+                comp.heat_capacity_constants = U.HeatCapacityConstants(a=co[0], b=co[1], c=co[2], d=co[3])
+            fresh = cp_component(co)
+            for name, args in (("get_cooling_heat", (t0, t1)), ("get_specific_heat", (t0,)), ("get_cooling_heat", (t2, t0))):
+                r1, r2 = core.call(getattr(comp, name), *args), core.call(getattr(fresh, name), *args)
+                if r1[0] != r2[0] or (r1[0] == "ok" and core.fhex(r1[1]) != core.fhex(r2[1])):
+                    v.append(core.viol("C13/stale_after_constants_edited/" + name, "after coefficient %s was %s to %r, %s%r = %r; a fresh component with those constants gives %r"
+                                       % ("abcd"[idx], how, val, name, args, r1[1], r2[1])))
+    return core.result("judged", digest=dig, viol=v, sample={"h01": h01})
 
 
 def main(tier, seed):
